@@ -69,7 +69,7 @@ package appencryption
 //@   ensures [C09:only-the-returned-key-s-secret-is-new] forall s securememory.Secret :: live(s) && !old(live(s)) ==> fresh(s) && err == nil && s == result.secret
 //@   ensures [C09:nothing-released] forall s securememory.Secret :: old(live(s)) ==> live(s)
 //@   ensures (err == nil) == (result != nil)
-//@   ensures err == nil ==> (result.revoked == 1) == old(ekr.Revoked)
+//@   ensures [C05,C02,C09,C10:key-carries-the-revoked-flag-of-its-own-row] err == nil ==> (result.revoked == 1) == old(ekr.Revoked)
 //@   ensures err == nil ==> result.created == old(ekr.Created) && result.secret != nil && valid(result.secret) && fresh(result.secret)
 //@   ensures [C10:kms-plaintext-wiped] forall i int :: 0 <= i && i < len(ret(DecryptKey, 1, 0)) ==> ret(DecryptKey, 1, 0)[i] == 0
 
@@ -84,7 +84,7 @@ package appencryption
 //@   ensures [C09:only-new-secrets-become-cache-owned] forall s securememory.Secret :: cacheowned(s) && !old(cacheowned(s)) ==> fresh(s)
 //@   ensures msGrows(old(ms), ms)
 //@   ensures (err == nil) == (result != nil)
-//@   ensures err == nil ==> (result.revoked == 1) == old(ekr.Revoked)
+//@   ensures [C05,C02,C09,C10:key-carries-the-revoked-flag-of-its-own-row] err == nil ==> (result.revoked == 1) == old(ekr.Revoked)
 //@   ensures err == nil ==> result.created == old(ekr.Created) && result.secret != nil && valid(result.secret) && fresh(result.secret)
 //@   ensures [C10:ik-plaintext-wiped] forall i int :: 0 <= i && i < len(ret(WithBytesFunc, 1, 0)) ==> ret(WithBytesFunc, 1, 0)[i] == 0
 
@@ -853,8 +853,8 @@ package appencryption
 //@   opt no-frame
 //@   requires c != nil && c.latest != nil && c.keys != nil && e.key != nil && e.key.CryptoKey != nil && wfCK(e.key) && (meta.Created != 0 ==> e.key.CryptoKey.created == meta.Created)
 //@   requires forall k string :: cdom(c.keys)[k] ==> wfCK(cval(c.keys)[k].key) && valid(cval(c.keys)[k].key)
-//@   ensures [C05:latest-alias-never-moves-backwards] meta.Created != 0 ==> (forall k string :: old(k in c.latest) ==> k in c.latest && c.latest[k].Created >= old(c.latest[k].Created))
-//@   ensures [C05:latest-alias-advances-to-a-newer-key] meta.Created != 0 && e.key.CryptoKey.created == meta.Created && old(ck(meta.ID, 0) in c.latest) && old(c.latest[ck(meta.ID, 0)].Created) < meta.Created ==> c.latest[ck(meta.ID, 0)].Created == meta.Created
+//@   ensures [C04,C05:latest-alias-never-moves-backwards] meta.Created != 0 ==> (forall k string :: old(k in c.latest) ==> k in c.latest && c.latest[k].Created >= old(c.latest[k].Created))
+//@   ensures [C04,C05:latest-alias-advances-to-a-newer-key] meta.Created != 0 && e.key.CryptoKey.created == meta.Created && old(ck(meta.ID, 0) in c.latest) && old(c.latest[ck(meta.ID, 0)].Created) < meta.Created ==> c.latest[ck(meta.ID, 0)].Created == meta.Created
 
 //@ func (*envelopeEncryption).createIntermediateKey
 //@   ensures [C02,C01,C14:generated-key-returned-only-if-its-insert-succeeded] err == nil && result == ret(GenerateKey, 1, 0) ==> retis(Store, 1, 0, true)
